@@ -72,16 +72,24 @@ def gen_scenario(rng):
                 prog = "o%d" % nk
                 waiting.append([nk, "o", False]); nk += 1
             elif not pinged:
-                prog = "p"
                 pinged = True
-                waiting.append([0, "p", False])
+                if rng.random() < 0.5:
+                    prog = "p"
+                    waiting.append([0, "p", False])
+                else:
+                    prog = "p+g%d" % nk          # blocks without a replacement request first, asks for one later
+                    waiting.append([nk, "g2", False]); nk += 1
             else:
                 prog = "r"
             if prog != "r":
                 blocking += 1
             ops.append("arrive:%d:%s" % (nm, prog))
             nm += 1
-        elif r < 0.52:
+        elif r < 0.49:
+            n = rng.randint(2, 5)
+            ops.append("burst:" + "-".join(str(nm + i) for i in range(n)))
+            nm += n
+        elif r < 0.53:
             ops.append("call:%s%d" % (rng.choice(["g", "g", "h"]), nk))
             waiting.append([nk, "c", False]); nk += 1
         elif r < 0.85 and waiting:
@@ -120,6 +128,15 @@ FIXED = [
     "scn tcp 0 0 0 arrive:1:p arrive:2:r pong sleep:11000 settle",
     "scn udp 0 0 0 arrive:1:p arrive:2:r pong sleep:11000 settle",
     "scn udp 16 0 0 arrive:1:p arrive:2:r pong settle",
+    # a replaced loop returns (its nested call times out) while the current loop is inside a handler that has not yet asked
+    # for a replacement; that handler's later nested call must still get its answer (per-loop readingMessages flag)
+    "scn udp 16 0 0 arrive:1:g1 sleep:25000 arrive:2:p+g2 sleep:11000 resp:2 sleep:31000 settle",
+    "scn tcp 16 0 0 arrive:1:g1 sleep:25000 arrive:2:p+g2 sleep:11000 resp:2 sleep:31000 settle",
+    "scn tcp 1 0 0 arrive:1:h1 arrive:2:h2 sleep:25000 arrive:3:p+g3 sleep:6000 sleep:5000 resp:3 arrive:4:r sleep:31000 settle",
+    # arrival order: bursts before a blocking handler arrives, and again after it has returned
+    "scn udp 16 0 0 burst:1-2-3-4 arrive:5:g1 burst:6-7 resp:1 burst:8-9-10 settle",
+    "scn tcp 1 0 0 burst:1-2-3 arrive:4:g1 resp:1 burst:5-6-7-8 settle",
+    "scn udp 0 0 0 burst:1-2-3-4-5 settle",
     # what works: nested calls to any depth, any answer order, every queue size
     "scn udp 16 0 0 arrive:1:r arrive:2:r arrive:3:r settle",
     "scn udp 0 0 0 arrive:1:g1 arrive:2:g2 arrive:3:g3 resp:3 resp:2 resp:1 settle",
